@@ -112,11 +112,11 @@ func mkBlk(name string, typ uint, data []byte) (blk, error) {
 	return blk{Name: name, Type: typ, Bytes: data, Header: hdr, Hash: h, Slot: b.SlotNumber()}, nil
 }
 
-// bases returns the fixture blocks (without the 650 KiB EBB, which is added
-// explicitly where wanted).
+// bases returns the fixture blocks; the last one is the 650 KiB Byron EBB,
+// which generators draw only rarely and only in the thorough tier (see nSmall).
 func bases() []blk {
 	baseOnce.Do(func() {
-		for _, f := range fixtures.SmallBlocks() {
+		for _, f := range fixtures.Blocks() {
 			b, err := mkBlk(f.Name, f.Type, f.Bytes)
 			if err != nil {
 				baseErr = err
@@ -130,6 +130,9 @@ func bases() []blk {
 	}
 	return baseBlocks
 }
+
+// nSmall is the number of fixtures without the trailing EBB.
+func nSmall() int { return len(bases()) - 1 }
 
 // variant derives a new block from a fixture by overwriting the previous-hash
 // field with salt-derived bytes (salt 0 = the fixture itself).
@@ -154,7 +157,7 @@ func variant(base blk, salt uint64) blk {
 // genBlk draws a block: a fixture or a salted variant of one.
 func genBlk(rt *rapid.T, label string) blk {
 	bs := bases()
-	b := bs[rapid.IntRange(0, len(bs)-1).Draw(rt, label+"_fixture")]
+	b := bs[rapid.IntRange(0, nSmall()-1).Draw(rt, label+"_fixture")]
 	salt := uint64(0)
 	if rapid.IntRange(0, 3).Draw(rt, label+"_variantp") > 0 {
 		salt = uint64(rapid.IntRange(1, 1<<20).Draw(rt, label+"_salt"))
@@ -251,6 +254,12 @@ func (s *session) close() {
 	case <-s.done:
 	case <-time.After(2 * time.Second):
 	}
+}
+
+// tb is what the case runners need from *rapid.T / *testing.T.
+type tb interface {
+	Fatalf(format string, args ...any)
+	Helper()
 }
 
 // ---- misc -------------------------------------------------------------------------
